@@ -323,3 +323,121 @@ def replay_fp_record(prop, rp):
 
 
 REPLAYS.update({"formula-text": replay_formula_text, "fp-record": replay_fp_record})
+
+
+def c12(run):
+    t = run.tier == "thorough"
+    import checks_lang_trace
+    import checks_cli
+    run.rule = ("every token sequence (length <= 4) and piece string (<= 3 pieces) of the C08 universes as formula; seeded byte-level inputs "
+                "(random bytes incl. invalid UTF-8, token soups, mutated valid formulas, extreme and non-ASCII digits, unbalanced "
+                "brackets/quotes, empty, nesting <= 200, up to 64 KiB) as formula and as ordering file in-process (parse + evaluation where "
+                "fixed points are absent and counting lists short) and through the binary with random option sets; outcome must be Ok/Err "
+                "(exit 0/1); non-trivial = inputs the parser rejects or that are not valid UTF-8")
+    # spec -> impl universes: only the panic (C12) findings are reported here
+    path, acc = mc_syntax(run, "tokens", 4, 1, "mc_tokens")
+    summary, mism = run_harness(["replay-tokens", path, "4"])
+    run.impl_traces += summary["sequences"]
+    run.evaluations += 2 * summary["sequences"]
+    report_syntax_mismatches(run, mism, {"C12"}, "tokens")
+    path, toks = mc_syntax(run, "chars", 3, 1, "mc_chars")
+    s2, mism2 = run_harness(["replay-chars", path])
+    run.impl_traces += s2["strings"]
+    run.evaluations += s2["strings"]
+    report_syntax_mismatches(run, mism2, {"C12"}, "chars")
+    run.extra["s2i"] = {"token_sequences": summary["sequences"], "piece_strings": s2["strings"], "panics": summary["panics"] + s2["panics"]}
+    # byte-level inputs in-process
+    d = fresh_dir(run.prop, "fuzz")
+    tr = os.path.join(d, "trace.ndjson")
+    indir = os.path.join(d, "inputs")
+    keep = 1200 if t else 250
+    fs, _ = run_harness(["fuzz", tr, str(60000 if t else 6000), indir, str(keep)], timeout=3000)
+    run.extra["i2s"] = {"in_process": fs}
+    acc, rej, lines = checks_lang_trace.validate_lang_trace(run, tr, "bytes", set())
+    for i in rej:
+        rec = json.loads(lines[i])
+        run.violation("panic:%s:%s" % (rec.get("as", "?"), (rec.get("panic") or "")[:60]),
+                      "panic on input (as %s): %s -- bytes %s" % (rec.get("as"), rec.get("panic"), rec.get("hex", "")[:200]),
+                      {"mode": "bytes", "hex": rec.get("full_hex", rec.get("hex")), "as": rec.get("as")})
+    run.sample({"direction": "impl->spec", "record": json.loads(lines[5])})
+    # through the binary: exit status 0 (Ok) or 1 (Err); 101 / signals are panics / aborts
+    build_repo_bins()
+    kept = [json.loads(l) for l in lines[:keep]]
+    rnd = random_for("c12")
+    jobs = []
+    for i, rec in enumerate(kept):
+        if rec.get("k") != "bytes":
+            continue
+        f = os.path.join(indir, "in%d.bin" % i)
+        opts = []
+        for o, pr in (("-t", .7), ("-v", .3), ("-m", .25), ("-r", .3)):
+            if rnd.random() < pr:
+                opts.append(o)
+        if rnd.random() < .4:
+            opts += ["-f", rnd.choice(["t", "f", "a", "True", "0", "*"])]
+        if rnd.random() < .25:
+            opts += ["-c", rnd.choice(["t", "f", "a"])]
+        if rnd.random() < .2:
+            opts += ["-b", str(rnd.choice([1, 2]))]
+        if rnd.random() < .3:
+            opts += ["-d", os.path.join(d, "o%d.dot" % i)]
+        if rnd.random() < .3:
+            opts += ["-p", os.path.join(d, "o%d.ptree" % i)]
+        if rec["formula"] != "ok":          # parse error or safely evaluable
+            jobs.append((["%s" % f] + opts, None, i, "formula file"))
+            if rnd.random() < .3:
+                jobs.append((opts, f, i, "formula on stdin"))
+        jobs.append((["--evaluate=a & b | zz", "-o", f] + opts, None, i, "ordering file"))
+
+    def one(job):
+        args, stdin_file, i, how = job
+        data = open(stdin_file, "rb").read() if stdin_file else None
+        rc, out = checks_cli.run_rsbdd(args, data, timeout=60)
+        return job, rc
+
+    from concurrent.futures import ThreadPoolExecutor
+    with ThreadPoolExecutor(max_workers=NCPU) as ex:
+        results = list(ex.map(one, jobs))
+    bad = 0
+    timeouts = 0
+    for (args, stdin_file, i, how), rc in results:
+        if rc == -999:
+            timeouts += 1
+        elif rc not in (0, 1):
+            bad += 1
+            run.violation("panic:binary:%s:exit%s" % (how, rc), "rsbdd %s (%s, input in%d.bin) ended with status %s" % (" ".join(args), how, i, rc),
+                          {"mode": "bytes", "hex": open(os.path.join(indir, "in%d.bin" % i), "rb").read().hex(), "as": how, "argv_opts": [a for a in args if not a.startswith("/")]})
+    run.impl_traces += len(results) - bad
+    run.evaluations += len(results)
+    run.extra["i2s"]["binary"] = {"runs": len(results), "abnormal": bad, "timeouts_ignored": timeouts}
+    run.nontrivial = fs["rejected"] + fs["invalid_utf8"]
+    run.assumptions += ["inputs whose evaluation is exponential by design (counting lists > 10 operands) or may not terminate (unknown fixed points) are parsed but not evaluated",
+                        "for bytes outside the modelled alphabet the specification contributes only the Ok/Err totality of every pipeline action"]
+
+
+def random_for(tag):
+    import random
+    return random.Random(seed() * 104729 + sum(map(ord, tag)))
+
+
+def replay_bytes(prop, rp):
+    d = fresh_dir(prop, "replay")
+    f = os.path.join(d, "input.bin")
+    with open(f, "wb") as fh:
+        fh.write(bytes.fromhex(rp["hex"].rstrip(".")))
+    summary, mism = run_harness(["probe-files", f])
+    for m in mism:
+        log("probe: %s" % json.dumps(m)[:500])
+    ok = summary["panics"] == 0
+    import checks_cli
+    build_repo_bins()
+    for args in (["%s" % f, "-t"], ["--evaluate=a & b | zz", "-o", f, "-t"]):
+        rc, out = checks_cli.run_rsbdd(args + rp.get("argv_opts", []), None, timeout=60)
+        log("rsbdd %s -> %s" % (args, rc))
+        if rc not in (0, 1, -999):
+            ok = False
+    return ok
+
+
+CHECKS.update({"C12": c12})
+REPLAYS.update({"bytes": replay_bytes})
